@@ -12,6 +12,11 @@ package util
 //	VERIF_CRASH=name#k:SIG  at the k-th (1-based) hit of name, send SIG
 //	                     (KILL, TERM or INT) to this process.  With
 //	                     name "*" hits of all points are counted together.
+//	VERIF_KILL_PARENT=name#k:SIG@sel  in processes named "mrjob" only: at
+//	                     the k-th hit of name whose detail[0] is sel or
+//	                     starts with sel+".", send SIG to the parent process
+//	                     (the mrp that started the job), then pause 150ms as
+//	                     a job monitor descheduled at that moment would.
 //	VERIF_CRASH_ONCE=<file>  if set, the crash fires only if the file does
 //	                     not exist yet; it is created just before firing.
 //	VERIF_PROC=<name>    delays and crashes only apply to processes whose
@@ -52,6 +57,11 @@ type verifState struct {
 	crashK    int64
 	crashSig  syscall.Signal
 	crashOnce string
+	kpName    string
+	kpK       int64
+	kpSig     syscall.Signal
+	kpSel     string
+	kpHits    int64
 	inventory bool
 	snapDir   string
 	active    bool
@@ -124,6 +134,27 @@ func verifInit() {
 			}
 		}
 	}
+	if c := os.Getenv("VERIF_KILL_PARENT"); c != "" && s.proc == "mrjob" {
+		// name#k:SIG@sel
+		if at := strings.LastIndexByte(c, '@'); at > 0 {
+			s.kpSel = c[at+1:]
+			c = c[:at]
+		}
+		colon := strings.LastIndexByte(c, ':')
+		hash := strings.LastIndexByte(c, '#')
+		if colon > hash && hash > 0 {
+			s.kpName = c[:hash]
+			s.kpK, _ = strconv.ParseInt(c[hash+1:colon], 10, 64)
+			switch c[colon+1:] {
+			case "KILL":
+				s.kpSig = syscall.SIGKILL
+			case "TERM":
+				s.kpSig = syscall.SIGTERM
+			case "INT":
+				s.kpSig = syscall.SIGINT
+			}
+		}
+	}
 	s.crashOnce = os.Getenv("VERIF_CRASH_ONCE")
 	s.inventory = os.Getenv("VERIF_INVENTORY") != ""
 	s.snapDir = os.Getenv("VERIF_SNAPSHOT_DIR")
@@ -178,7 +209,7 @@ type verifRecord struct {
 func VerifPoint(name string, detail ...string) {
 	s := &verifSt
 	s.once.Do(verifInit)
-	if s.trace == nil && s.snapDir == "" && (!s.active || (len(s.delays) == 0 && s.crashSig == 0)) {
+	if s.trace == nil && s.snapDir == "" && s.kpSig == 0 && (!s.active || (len(s.delays) == 0 && s.crashSig == 0)) {
 		return
 	}
 	seq := s.seq.Add(1)
@@ -213,6 +244,22 @@ func VerifPoint(name string, detail ...string) {
 			}
 		}
 	}
+	killParent := false
+	if s.kpSig != 0 && s.kpName == name && (s.kpSel == "" || (len(detail) > 0 &&
+		(detail[0] == s.kpSel || strings.HasPrefix(detail[0], s.kpSel+".")))) {
+		s.mu.Lock()
+		s.kpHits++
+		killParent = s.kpHits == s.kpK
+		s.mu.Unlock()
+		if killParent && s.crashOnce != "" {
+			if f, err := os.OpenFile(s.crashOnce,
+				os.O_CREATE|os.O_EXCL|os.O_WRONLY, 0644); err != nil {
+				killParent = false
+			} else {
+				f.Close()
+			}
+		}
+	}
 	if s.trace != nil {
 		rec := verifRecord{
 			T:      verifMonoNs(),
@@ -225,6 +272,8 @@ func VerifPoint(name string, detail ...string) {
 		}
 		if crash {
 			rec.Crash = s.crashSig.String()
+		} else if killParent {
+			rec.Crash = "parent:" + s.kpSig.String()
 		}
 		if s.inventory && strings.HasPrefix(name, "vdr:remove") && len(detail) > 0 {
 			c, sz, paths, rs := verifInventory(detail[0])
@@ -234,6 +283,10 @@ func VerifPoint(name string, detail ...string) {
 			b = append(b, '\n')
 			s.trace.Write(b)
 		}
+	}
+	if killParent {
+		syscall.Kill(os.Getppid(), s.kpSig)
+		time.Sleep(150 * time.Millisecond)
 	}
 	if crash {
 		syscall.Kill(os.Getpid(), s.crashSig)
